@@ -311,7 +311,7 @@ class Suite:
     """One correspondence suite: a Go harness + an OCaml model runner."""
 
     def __init__(self, name, harness, runner, model_deps, quick_n, thorough_n, godev=False,
-                 rule="", rewrite=None, extra_args=None, timeout=1500, race=False):
+                 rule="", rewrite=None, extra_args=None, timeout=1500, race=False, tags="verif"):
         self.name = name
         self.harness = harness
         self.runner = runner
@@ -324,6 +324,7 @@ class Suite:
         self.extra_args = extra_args or []
         self.timeout = timeout
         self.race = race
+        self.tags = tags
 
 
 class Result:
@@ -424,7 +425,7 @@ def run_check(spec, tier, seed, replay=None):
             continue
         n = s.thorough_n if (tier == "thorough" or escalate) else s.quick_n
         with scratch_copy(rewrite=s.rewrite) as copy:
-            okb, logb, binp = go_build(copy, s.harness, godev=s.godev, race=s.race)
+            okb, logb, binp = go_build(copy, s.harness, godev=s.godev, race=s.race, tags=s.tags)
             if not okb:
                 # the harness does not build against the current tree: the tie is broken
                 corr_broken = corr_broken or {"suite": s.name, "error": "harness does not build against the working tree:\n" + logb[-2500:]}
